@@ -379,6 +379,10 @@ def obligations(tier, seed):
         specs.append(spec(MOD, 'TaskIds', 'progress-key-distinguishes-tasks/levels%d' % n, cfg=dict(n=n), cost=2))
     for f in ('can_skip_spec', 'can_skip_never_skips_ancestor'):
         specs.append(crosshair_runner.spec(MOD, CH, f, 'progress/' + f, timeout=120, cost=60, functions=['SeedProgress.can_skip']))
+    for f in ('levels_list_selects_every_chosen_level', 'levels_range_selects_every_level_between'):
+        specs.append(crosshair_runner.spec(MOD, CH, f, 'task-levels/' + f, timeout=120, cost=60, functions=['LevelsList.for_grid', 'LevelsRange.for_grid']))
+    specs.append(crosshair_runner.spec(MOD, CH, 'levels_range_selects_every_level_between', 'canary/level range reaches past the last grid level', kind='canary', timeout=120, cost=30,
+                                       patches={'mapproxy.seed.config': [["        stop = min(stop, grid.levels-1)\n", "        stop = min(stop, grid.levels)\n"]]}))
     specs.append(spec(MOD, 'SeedWalk', 'twin/SeedWalk', kind='witness', cfg=dict(grid='f2', levels=[0, 1], meta=[1, 1], target_level=1)))
     specs.append(spec(MOD, 'Interruption', 'twin/Interruption', kind='witness', cfg=dict(grid='f2', levels=[0, 1], meta=[1, 1], target_level=1)))
     specs.append(crosshair_runner.spec(MOD, CH, 'twin_can_skip', 'twin/can_skip', kind='witness', timeout=60))
